@@ -4,6 +4,7 @@ import PyhmsVerif.Model.Problem
 import PyhmsVerif.Model.Select
 import PyhmsVerif.Model.TreeProto
 import PyhmsVerif.Model.R5S
+import PyhmsVerif.Model.Engine
 /-!
 Line-protocol driver: one operation per input line, one answer per output line.
 `lake env lean --run Driver.lean < ops.txt`
@@ -73,6 +74,16 @@ def wrapTrace (mx : Bool) (ws : List Problem.Wrapper) (vs : List Fit) : String :
     (p.1, acc.2 ++ [s!"{showFit p.2.1} {showBool p.2.2} | " ++ " ; ".intercalate (p.1.map showWrapper)])
   " || ".intercalate (vs.foldl step (ws, [])).2
 
+def boxP : P Engine.Box := list (do let lo ← rat; let hi ← rat; pure (lo, hi))
+def pickP : P Engine.Pick := do
+  let i0 ← nat; let i1 ← nat; let i2 ← nat; let f ← rat
+  pure ⟨i0, i1, i2, f⟩
+def ppickP : P Engine.PPick := do
+  let pb ← nat; let p ← rat; let i0 ← nat; let j1 ← nat; let f ← rat
+  pure ⟨pb, p, i0, j1, f⟩
+def showReqs (l : List (Engine.Genome × Fit)) : String :=
+  showList (fun q => showList showRat q.1 ++ " " ++ showFit q.2) l
+
 def handle : P String := do
   let op ← tok
   match op with
@@ -133,6 +144,23 @@ def handle : P String := do
     let w ← list rat
     let arr := m.toArray
     pure (showInds (R5S.r5sD mx k n pop (fun i j => arr.getD (i * pop.length + j) 0) w))
+  | "degen" => do
+    -- degen <mx> <rounding> <box> <parents> <picks> <chosen> <jrand> <crs> <values>
+    let mx ← bool; let r ← parseRounding; let box ← boxP; let par ← list indP
+    let picks ← list pickP; let chosen ← list (list rat); let jrand ← nat
+    let crs ← list rat; let values ← list fitP
+    pure (match Engine.deGen mx r box par ⟨picks, chosen, jrand, crs, values⟩ with
+      | some g => showInds g.trials ++ " | " ++ showReqs g.requests ++ " | " ++ showInds g.next
+      | none => "none")
+  | "shadegen" => do
+    -- shadegen <mx> <rounding> <box> <parents> <archive> <ppicks> <chosen> <jrand> <crs> <values>
+    let mx ← bool; let r ← parseRounding; let box ← boxP; let par ← list indP
+    let arch ← list (list rat)
+    let picks ← list ppickP; let chosen ← list (list rat); let jrand ← nat
+    let crs ← list rat; let values ← list fitP
+    pure (match Engine.shadeGen mx r box par arch ⟨picks, chosen, jrand, crs, values⟩ with
+      | some g => showInds g.trials ++ " | " ++ showReqs g.requests ++ " | " ++ showInds g.next ++ " | " ++ showList (showList showRat) g.archive
+      | none => "none")
   | "rnd" => do
     let x ← rat
     pure (showOpt showRat (F64.rnd x))
